@@ -1,4 +1,7 @@
 import SqlObjVerif.Lemmas.Cache
+import SqlObjVerif.Lemmas.CacheXCull
+import SqlObjVerif.Lemmas.CacheXRep
+import SqlObjVerif.Lemmas.CacheXList
 /-!
 # C04 — identity map: one live instance per row per connection on every access path
 
@@ -217,5 +220,122 @@ theorem C04_unpickle_no_dup_full_FALSE : ¬ ∀ (cfg : Cfg) (ops : List Op), Ide
     ⟨by decide, by decide, Or.inl (by decide)⟩ ⟨by decide, by decide, Or.inl (by decide)⟩
     (by decide) (by decide) (by decide) (by decide)
   exact absurd this (by decide)
+
+/-! ## The hand model of `CacheFactory` IS the translated source
+
+`vlib/extractors/pycache.py` translates every method of `cache.py:CacheFactory` into a PyCache
+program on every run (`Extracted/PyCache.lean`); `tryGetX`, `getX`, … (`Model/CacheX.lean`) RUN
+those programs from `absW s c rel falsy lock`, the image of class `c`'s factory in model state `s`
+(`rel`: which objects die the moment the strong cache drops them, `falsy`: which objects are falsy —
+both arbitrary unless stated).  Each theorem: the translated method ends in the image of the state
+the hand model's function yields, returning what it returns — for ALL states, under the stated
+hypotheses only:
+* `Rep s c` (representation invariant, needed where the method iterates a dict): both association
+  lists have pairwise distinct keys, and what the strong map refers to is alive;
+* `cullFraction ≠ 0` (Python's `range()` raises ValueError for a zero step);
+* `relOf s` where the hand model itself decides who dies (`cull`): reference counting on and not held;
+* "the dropped object does not die on the spot" where the hand model defers collection to its `gc` op
+  (`expire`, `expireAll`, an overwriting `put`/`created`).
+A semantic edit of cache.py changes the translated programs and breaks these proofs. -/
+
+open SqlObjVerif.PyCache in
+/-- `CacheFactory.tryGet(id)` = `tryGet` (any state, any lock state; nothing changes) -/
+theorem C04_translated_tryGet_eq_model (s : State) (c : Cls) (k : Id) (rel falsy : Handle → Bool) (lock : Bool) :
+    tryGetX (absW s c rel falsy lock) k = .ret (absW s c rel falsy lock) (optObj (tryGet s c k)) :=
+  tryGetX_eq s c k rel falsy lock
+
+open SqlObjVerif.PyCache in
+/-- `CacheFactory.get(id)` = `lookupCache ∘ tick`; the lock stays held exactly when it returns None -/
+theorem C04_translated_get_eq_model (s : State) (c : Cls) (k : Id) (falsy : Handle → Bool)
+    (hfr : s.cfg.cullFraction ≠ 0) (hrep : Rep s c) :
+    getX (absW s c (relOf s) falsy false) k =
+      .ret (absW (lookupCache (tick s c) c k).1 c (relOf s) falsy (lookupCache (tick s c) c k).2.isNone)
+        (optObj (lookupCache (tick s c) c k).2) :=
+  getX_eq s c k falsy hfr hrep
+
+open SqlObjVerif.PyCache in
+/-- `CacheFactory.put(id, obj)` = `insertEntry` -/
+theorem C04_translated_put_eq_model (s : State) (c : Cls) (k : Id) (h : Handle) (rel falsy : Handle → Bool)
+    (lock : Bool) (hrel : ∀ e ∈ (s.fac c).strong, e.1 = k → e.2 ≠ h → rel e.2 = false) :
+    putX (absW s c rel falsy lock) k h = .ret (absW (insertEntry s c k h) c rel falsy lock) .none :=
+  putX_eq s c k h rel falsy lock hrel
+
+open SqlObjVerif.PyCache in
+/-- `CacheFactory.finishPut()` releases the lock `get` left held -/
+theorem C04_translated_finishPut_eq_model (s : State) (c : Cls) (rel falsy : Handle → Bool) :
+    finishPutX (absW s c rel falsy true) = .ret (absW s c rel falsy false) .none :=
+  finishPutX_eq s c rel falsy
+
+open SqlObjVerif.PyCache in
+/-- `CacheFactory.created(id, obj)` = `insertEntry ∘ tick` -/
+theorem C04_translated_created_eq_model (s : State) (c : Cls) (k : Id) (h : Handle) (falsy : Handle → Bool)
+    (hfr : s.cfg.cullFraction ≠ 0) (hrep : Rep s c)
+    (hrel : ∀ e ∈ (s.fac c).strong, e.1 = k → e.2 ≠ h → relOf s e.2 = false) :
+    createdX (absW s c (relOf s) falsy false) k h =
+      .ret (absW (insertEntry (tick s c) c k h) c (relOf s) falsy false) .none :=
+  createdX_eq s c k h falsy hfr hrep hrel
+
+open SqlObjVerif.PyCache in
+/-- `CacheFactory.cull()` = `cull`: the dead-weakref purge, the stride loop over `range(cullOffset, len(keys),
+    cullFraction)`, the death of unreferenced objects and the new `cullOffset` -/
+theorem C04_translated_cull_eq_model (s : State) (c : Cls) (falsy : Handle → Bool)
+    (hdc : s.cfg.doCache = true) (hfr : s.cfg.cullFraction ≠ 0) (hrep : Rep s c) :
+    cullX (absW s c (relOf s) falsy false) = .ret (absW (cull s c) c (relOf s) falsy false) .none :=
+  cullX_eq s c falsy hdc hfr hrep
+
+open SqlObjVerif.PyCache in
+/-- `CacheFactory.expire(id)` = `purge` -/
+theorem C04_translated_expire_eq_model (s : State) (c : Cls) (k : Id) (rel falsy : Handle → Bool)
+    (hnc : s.cfg.doCache = false → (s.fac c).strong = [])
+    (hrel : ∀ e ∈ (s.fac c).strong, e.1 = k → rel e.2 = false) :
+    expireX (absW s c rel falsy false) k = .ret (absW (purge s c k) c rel falsy false) .none :=
+  expireX_eq s c k rel falsy hnc hrel
+
+open SqlObjVerif.PyCache in
+/-- `CacheFactory.expireAll()` = `weakrefAll` (per class) -/
+theorem C04_translated_expireAll_eq_model (s : State) (c : Cls) (rel falsy : Handle → Bool)
+    (hrel : ∀ e ∈ (s.fac c).strong, rel e.2 = false) :
+    expireAllX (absW s c rel falsy false) = .ret (absW (weakrefAll s) c rel falsy false) .none :=
+  expireAllX_eq s c rel falsy hrel
+
+
+open SqlObjVerif.PyCache in
+/-- `CacheFactory.clear()`: both dicts empty, the strong references dropped (no model function: stated directly) -/
+theorem C04_translated_clear_spec (s : State) (c : Cls) (rel falsy : Handle → Bool) (lock : Bool) :
+    clearX (absW s c rel falsy lock) =
+      .ret ((absD s c rel falsy lock (if s.cfg.doCache then [] else (s.fac c).strong) []).release
+              (if s.cfg.doCache then (s.fac c).strong.map (·.2) else [])) .none :=
+  clearX_eq s c rel falsy lock
+
+open SqlObjVerif.PyCache in
+/-- `CacheFactory.allIDs()`: the strong keys, then the weak keys whose referent is alive and truthy; no state change -/
+theorem C04_translated_allIDs_spec (s : State) (c : Cls) (rel falsy : Handle → Bool) (lock : Bool) :
+    allIDsX (absW s c rel falsy lock) =
+      .retList (absW s c rel falsy lock)
+        ((if s.cfg.doCache then (s.fac c).strong.map (fun e => Val.key e.1) else []) ++
+         ((s.fac c).weak.filter (listed s falsy)).map (fun e => Val.key e.1)) :=
+  allIDsX_eq s c rel falsy lock
+
+open SqlObjVerif.PyCache in
+/-- `CacheFactory.getAll()`: the strongly cached objects, then the weakly cached ones that are alive and truthy -/
+theorem C04_translated_getAll_spec (s : State) (c : Cls) (rel falsy : Handle → Bool) (lock : Bool) :
+    getAllX (absW s c rel falsy lock) =
+      .retList (absW s c rel falsy lock)
+        ((if s.cfg.doCache then (s.fac c).strong.map (fun e => Val.obj e.2) else []) ++
+         ((s.fac c).weak.filter (listed s falsy)).map (fun e => Val.obj e.2)) :=
+  getAllX_eq s c rel falsy lock
+
+/-- the representation invariant is an invariant of the hand model: `DictInv` (distinct keys) is preserved by
+    EVERY step, and with `CInv` it gives `Rep` for every class in every state a guarded history reaches -/
+theorem C04_translated_rep_reachable (cfg : Cfg) (ops : List Op) (hs : Safe (init cfg) ops = true) (c : Cls) :
+    Rep (run (init cfg) ops) c :=
+  rep_of_inv (C04_inv_reachable _ ops (inv_init cfg) hs) (dictInv_run (dictInv_init cfg) ops) c
+
+theorem C04_translated_dictrep_step (s : State) (op : Op) (h : DictInv s) : DictInv (step s op).1 :=
+  dictInv_step h op
+
+/-- non-vacuity: the representation invariant holds initially -/
+example (cfg : Cfg) (c : Cls) : Rep (init cfg) c := by
+  constructor <;> simp [init, emptyFactory, DictRep]
 
 end SqlObjVerif.Cache
